@@ -88,6 +88,11 @@ def build_case(ch):
             kind = ch.weighted([(6, 'file'), (1, 'dir'), (1, 'link')])
             # directories / symlinks only under names the translator will not write itself (file indices stay < 100)
             names.append((ch.pick(MATCHING if kind == 'file' else MATCHING_HIGH), kind))
+        # neighbours of the requested output name: editor / temporary-file spellings a careless "write then rename" would hit
+        if ch.below(2):
+            names.append((base + ch.pick(('.tmp', '~', '.bak', '.new', '.part', '.lock')), 'file'))
+        if ch.below(4) == 0:
+            names.append(('.' + base + ch.pick(('.tmp', '.swp')), 'file'))
         decoys[d] = names
     opts = []
     if ch.below(2) == 1:
